@@ -1,4 +1,8 @@
+import CalmVerif.Props.C12all
 import CalmVerif.Props.C12
+import CalmVerif.Props.C12parse
+import CalmVerif.Props.C12act
+import CalmVerif.Props.C12term
 open CalmVerif.Props.C12
 #print axioms lexer_terminates
 #print axioms token_terminates
@@ -21,3 +25,57 @@ open CalmVerif.Props.C12lex
 #check @lexer_no_internal
 #check @token_no_internal
 #check @backtracked_token_no_internal
+#print axioms CalmVerif.Props.C12parse.parse_lexer_errors_are_syntax_errors
+#check @CalmVerif.Props.C12parse.parse_lexer_errors_are_syntax_errors
+#print axioms CalmVerif.Props.C12parse.parse_no_lexer_internal
+#check @CalmVerif.Props.C12parse.parse_no_lexer_internal
+#print axioms CalmVerif.Props.C12parse.parse_no_lexer_out_of_fuel
+#check @CalmVerif.Props.C12parse.parse_no_lexer_out_of_fuel
+#print axioms CalmVerif.Props.C12parse.parse_no_lexer_model_gap
+#check @CalmVerif.Props.C12parse.parse_no_lexer_model_gap
+#print axioms CalmVerif.Props.C12parse.p_error_raises_only_syntax_errors
+#check @CalmVerif.Props.C12parse.p_error_raises_only_syntax_errors
+#print axioms CalmVerif.Props.C12parse.run_lexer_errors_are_syntax_errors
+#check @CalmVerif.Props.C12parse.run_lexer_errors_are_syntax_errors
+#print axioms CalmVerif.Props.C12act.actions_closed
+#check @CalmVerif.Props.C12act.actions_closed
+#print axioms CalmVerif.Props.C12act.action_call_no_internal
+#check @CalmVerif.Props.C12act.action_call_no_internal
+#print axioms CalmVerif.Props.C12act.run_no_action_internal
+#check @CalmVerif.Props.C12act.run_no_action_internal
+#print axioms CalmVerif.Props.C12act.parse_no_action_internal
+#check @CalmVerif.Props.C12act.parse_no_action_internal
+#print axioms CalmVerif.Props.C12act.parse_action_errors_are_production_errors
+#check @CalmVerif.Props.C12act.parse_action_errors_are_production_errors
+#print axioms CalmVerif.Props.C12term.ranks_ok
+#print axioms CalmVerif.Props.C12term.lr_steps_bounded
+#print axioms CalmVerif.Props.C12term.lr_out_of_fuel_bounded
+#print axioms CalmVerif.Props.C12term.lr_fuel_suffices_partial
+#print axioms CalmVerif.Props.C12term.list_source_bound
+#print axioms CalmVerif.Props.C12term.lr_terminates_on_token_lists
+#print axioms CalmVerif.Props.C12term.auto_term_is_autosemi
+#print axioms CalmVerif.Props.C12term.auto_ok
+#print axioms CalmVerif.Props.C12term.no_autosemi_shift_after_autosemi
+#print axioms CalmVerif.Props.C12term.parser_source_bound
+#print axioms CalmVerif.Props.C12term.sem_ty_autosemi
+#print axioms CalmVerif.Props.C12term.parse_terminates
+#print axioms CalmVerif.Props.C12term.parse_never_out_of_fuel_partial
+#check @CalmVerif.Props.C12term.ranks_ok
+#check @CalmVerif.Props.C12term.lr_steps_bounded
+#check @CalmVerif.Props.C12term.lr_out_of_fuel_bounded
+#check @CalmVerif.Props.C12term.lr_fuel_suffices_partial
+#check @CalmVerif.Props.C12term.list_source_bound
+#check @CalmVerif.Props.C12term.lr_terminates_on_token_lists
+#check @CalmVerif.Props.C12term.auto_term_is_autosemi
+#check @CalmVerif.Props.C12term.auto_ok
+#check @CalmVerif.Props.C12term.no_autosemi_shift_after_autosemi
+#check @CalmVerif.Props.C12term.parser_source_bound
+#check @CalmVerif.Props.C12term.sem_ty_autosemi
+#check @CalmVerif.Props.C12term.parse_terminates
+#check @CalmVerif.Props.C12term.parse_never_out_of_fuel_partial
+#print axioms CalmVerif.Props.C12term.parse_never_out_of_fuel
+#check @CalmVerif.Props.C12term.parse_never_out_of_fuel
+#print axioms CalmVerif.Props.C12all.parse_total
+#check @CalmVerif.Props.C12all.parse_total
+#print axioms CalmVerif.Props.C12all.parse_no_recovery
+#check @CalmVerif.Props.C12all.parse_no_recovery
